@@ -46,24 +46,64 @@ def slot_name(sub):
     return None
 
 
+def get_roles(P):
+    """names of the search state of RadiDict.get, found by role (not by spelling)"""
+    f = P.func(f'{RD}:RadiDict.get')
+    roles = {'route': f.params[1]}
+    for r in [n for n in walk_shallow(f.node) if isinstance(n, ast.Return) and isinstance(n.value, ast.Tuple)]:
+        for x in ast.walk(r.value):
+            if isinstance(x, ast.Call) and dotted(x.func) == 'dict':
+                kw = {k.arg: k.value for k in x.keywords}
+                if 'param_values' in kw and isinstance(kw['param_values'], ast.Name):
+                    roles['params'] = kw['param_values'].id
+                if 'hooks' in kw and isinstance(kw['hooks'], ast.Name):
+                    roles['hooks'] = kw['hooks'].id
+    for st in walk_shallow(f.node):
+        if isinstance(st, ast.Assign) and isinstance(st.targets[0], ast.Tuple) and len(st.targets[0].elts) >= 5 \
+                and isinstance(st.value, ast.Call) and call_attr(st.value) == 'pop' and isinstance(st.value.func.value, ast.Name):
+            roles['look_back'] = st.value.func.value.id
+        if isinstance(st, ast.Assign) and isinstance(st.value, ast.Subscript) and isinstance(st.value.slice, ast.BinOp) \
+                and src(st.value.slice.left) == 'OFFSET' and isinstance(st.value.slice.right, ast.Name) and isinstance(st.value.value, ast.Name) \
+                and isinstance(st.targets[0], ast.Name) and st.targets[0].id == st.value.value.id:
+            roles['kidx'] = st.value.slice.right.id
+            roles['pnode'] = st.value.value.id
+        if isinstance(st, ast.Assign) and isinstance(st.value, ast.Subscript) and c01_slot(st.value) == 'IDX' and isinstance(st.targets[0], ast.Name) \
+                and T.loops_of(st):
+            roles['idx'] = st.targets[0].id
+    for x in walk_shallow(f.node):
+        if isinstance(x, ast.Subscript) and isinstance(x.value, ast.Name) and x.value.id == roles['route'] and isinstance(x.slice, ast.Slice) \
+                and isinstance(x.slice.lower, ast.Name) and isinstance(x.slice.upper, ast.Name):
+            roles.setdefault('cursor', x.slice.lower.id)
+    for need in ('params', 'hooks', 'look_back', 'kidx', 'pnode', 'idx', 'cursor'):
+        if need not in roles:
+            raise AnalysisError(f'RadiDict.get: cannot identify the `{need}` variable by role')
+    return roles
+
+
+def c01_slot(sub):
+    return sub.slice.id if isinstance(sub, ast.Subscript) and isinstance(sub.slice, ast.Name) else None
+
+
 def check_lookback(P, R, rid, what=('params', 'hooks')):
+    roles = get_roles(P)
     """C01.c / C11.f: look-back records carry copies of the live lists"""
     f = P.func(f'{RD}:RadiDict.get')
     pushes = [c for c in walk_shallow(f.node) if isinstance(c, ast.Call) and call_attr(c) == 'append'
-              and isinstance(c.func.value, ast.Name) and c.func.value.id == 'look_back']
+              and isinstance(c.func.value, ast.Name) and c.func.value.id == roles['look_back']]
     R.require(len(pushes) >= 2, f'RadiDict.get: {len(pushes)} look-back pushes found (2 on the pinned tree)')
     for i, c in enumerate(pushes):
         rec = c.args[0] if c.args else None
         elts = rec.elts if isinstance(rec, (ast.List, ast.Tuple)) else []
-        for name in what:
+        for role in what:
+            name = roles[role]
             refs = [e for e in elts if name in names_loaded(e)]
             ok = bool(refs) and all(isinstance(e, ast.Subscript) and isinstance(e.slice, ast.Slice) and e.slice.lower is None
                                     and e.slice.upper is None or (isinstance(e, ast.Call) and dotted(e.func) in ('list', 'copy.copy') or
                                                                   (isinstance(e, ast.Call) and call_attr(e) == 'copy')) for e in refs)
-            R.ob(rid, f, c, ok, text=f'look_back record #{i + 1} stores a copy of `{name}`', detail='' if ok else
+            R.ob(rid, f, c, ok, text=f'look_back record #{i + 1} stores a copy of the {role} list `{name}`', detail='' if ok else
                  f'the record stores the live `{name}` list itself: what the abandoned branch appended is still there when the search '
                  f'falls back to the wildcard sibling',
-                 why='the retried branch must see the parameters / hooks as they were at the branching point', key_extra=f'{i}:{name}')
+                 why='the retried branch must see the parameters / hooks as they were at the branching point', key_extra=f'{i}:{role}')
     return f, pushes
 
 
@@ -78,10 +118,11 @@ def check(P, R):
     slot_consts(P)
     f = P.func(f'{RD}:RadiDict.get')
     g, rd = f.cfg, f.rd
+    roles = get_roles(P)
 
     # ---- a: append guarded by identity test
     apps = [c for c in walk_shallow(f.node) if isinstance(c, ast.Call) and call_attr(c) == 'append'
-            and isinstance(c.func.value, ast.Name) and c.func.value.id == 'params']
+            and isinstance(c.func.value, ast.Name) and c.func.value.id == roles['params']]
     R.require(apps, 'RadiDict.get: params.append not found')
     for c in apps:
         cn = g.node_of_stmt(c)[0]
@@ -110,7 +151,7 @@ def check(P, R):
                 if d.kind == 'unpack' and isinstance(d.value, ast.Call) and isinstance(d.value.func, ast.Name) and d.index == 0:
                     kinds.add('filter')
                 elif d.kind == 'assign' and isinstance(d.value, ast.Subscript) and isinstance(d.value.slice, ast.Slice) \
-                        and isinstance(d.value.value, ast.Name) and d.value.value.id == 'route':
+                        and isinstance(d.value.value, ast.Name) and d.value.value.id == roles['route']:
                     kinds.add('slice')
                 else:
                     kinds.add('other:' + short(d.value or d.stmt, 30))
@@ -121,10 +162,13 @@ def check(P, R):
     mf = P.func(f'{FF}:FilterFactory.make_filter')
     sibs = [x for x in P.all_funcs() if x.parent is mf and x.name == 'handler']
     R.require(len(sibs) == 3, f'make_filter: {len(sibs)} handler variants found (3 on the pinned tree)')
+    masks = {d.name for n in mf.cfg.nodes for d in mf.rd.gen.get(n, []) if d.value is not None and isinstance(d.value, ast.Call)
+             and dotted(d.value.func) == 're.compile'}
+    R.require(masks, 'make_filter: compiled mask variable not found')
     for i, h in enumerate(sibs):
         hg, hrd = h.cfg, h.rd
         mcalls = [c for c in walk_shallow(h.node) if isinstance(c, ast.Call) and isinstance(c.func, ast.Attribute)
-                  and dotted(c.func.value) == 'mask']
+                  and dotted(c.func.value) in masks]
         ok = bool(mcalls) and all(c.func.attr == 'match' and c.args and src(c.args[0]) == h.params[0] for c in mcalls)
         R.ob('C01.a', h, mcalls[0] if mcalls else h.node, ok, text=f'handler#{i + 1}: mask.match(param)', detail='' if ok else
              'the mask is not applied with match() at the cursor (search/fullmatch change what a wildcard consumes)', key_extra=f'h{i}:match')
@@ -163,22 +207,22 @@ def check(P, R):
         t = enclosing(c, ast.If)
         if t is not None:
             cp = compare_parts(t.test)
-            ok = bool(cp) and cp[1] is ast.Eq and 'idx[-1]' in src(cp[0]) and src(cp[2]) in ('TOKEN', 'self.param_token')
+            ok = bool(cp) and cp[1] is ast.Eq and f"{roles['idx']}[-1]" in src(cp[0]) and ('param_token' in src(cp[2]) or _is_token_name(f, cp[2]))
     R.ob('C01.c', f, lit_push[0] if lit_push else f.node, ok, text='push when idx[-1] == TOKEN before taking a literal child', detail='' if ok else
          'the look-back record is not pushed whenever the node also has a wildcard child')
     # push precedes the descent
-    desc = [st for st in walk_shallow(f.node) if isinstance(st, ast.Assign) and src(st.value).replace(' ', '') == 'pnode[OFFSET+kidx]']
+    desc = [st for st in walk_shallow(f.node) if isinstance(st, ast.Assign) and src(st.value).replace(' ', '') == f"{roles['pnode']}[OFFSET+{roles['kidx']}]"]
     R.require(desc, 'RadiDict.get: literal descent not found')
     for st in desc:
         dn = g.node_of_stmt(st)[0]
-        tests = [n for n in g.nodes if n.kind == 'test' and 'idx[-1]' in src(n.ast) and g.dominates(n, dn)]
+        tests = [n for n in g.nodes if n.kind == 'test' and f"{roles['idx']}[-1]" in src(n.ast) and g.dominates(n, dn)]
         ok = bool(tests) and bool(lit_push) and all(
             s is g.node_of_stmt(lit_push[0])[0] or not g.can_reach(s, dn, avoid_nodes=[g.node_of_stmt(lit_push[0])[0]])
             for s in T.succ_by_label(tests[0], 'true'))
         R.ob('C01.c', f, st, ok, text='literal descent happens after the push', detail='' if ok else
              'the literal child can be entered without the look-back record having been pushed')
     # all failure exits of the inner loop reach the pop
-    pops = [c for c in walk_shallow(f.node) if isinstance(c, ast.Call) and call_attr(c) == 'pop' and dotted(c.func.value) == 'look_back']
+    pops = [c for c in walk_shallow(f.node) if isinstance(c, ast.Call) and call_attr(c) == 'pop' and dotted(c.func.value) == roles['look_back']]
     R.require(pops, 'RadiDict.get: look_back.pop not found')
     pop_test = enclosing(pops[0], ast.If)
     ptn = g.nodes_for(pop_test.test)[0]
@@ -226,16 +270,16 @@ def check(P, R):
     # ---- e: marker
     lit_tests = []
     for n in g.nodes:
-        if n.kind == 'test' and any(isinstance(s.ast, ast.Assign) and 'kidx' in [t.id for t in s.ast.targets if isinstance(t, ast.Name)]
+        if n.kind == 'test' and any(isinstance(s.ast, ast.Assign) and roles['kidx'] in [t.id for t in s.ast.targets if isinstance(t, ast.Name)]
                                     for s in T.succ_by_label(n, 'true') if s.kind == 'stmt'):
             lit_tests.append(n)
     R.require(lit_tests, 'RadiDict.get: literal child selection (`kidx = ic`) not found')
     for n in lit_tests:
         parts = bool_operands(n.ast, ast.And)
         guard = any(compare_parts(p) and compare_parts(p)[1] is ast.NotEq and
-                    {src(compare_parts(p)[0]), src(compare_parts(p)[2])} & {'TOKEN', 'self.param_token'} for p in parts)
+                    (_is_token_name(f, compare_parts(p)[0]) or _is_token_name(f, compare_parts(p)[2])) for p in parts)
         # or: the path is rejected / escaped before the search
-        pre = any(isinstance(x, ast.Compare) and 'TOKEN' in src(x) and 'route' in src(x) and isinstance(x.ops[0], (ast.In, ast.NotIn))
+        pre = any(isinstance(x, ast.Compare) and any(_is_token_name(f, y) for y in [x.left] + x.comparators) and roles['route'] in src(x) and isinstance(x.ops[0], (ast.In, ast.NotIn))
                   for x in ast.walk(f.node))
         ok = guard or pre
         R.ob('C01.e', f, n.ast, ok, text=f'literal child selection `{short(n.ast)}` excludes the marker', detail='' if ok else
@@ -257,12 +301,16 @@ def check(P, R):
          'names and values are not zipped positionally (or anonymous wildcards are not dropped)')
     rs = P.func(f'{RR}:RadiRouter.resolve')
     calls = [c for c in walk_shallow(rs.node) if isinstance(c, ast.Call) and call_attr(c) == 'make_params_dict']
-    ok = bool(calls) and [src(a).replace('"', "'") for a in calls[0].args] == ["extra['param_keys']", "extra['param_values']"]
+    gets = [st for st in walk_shallow(rs.node) if isinstance(st, ast.Assign) and isinstance(st.targets[0], ast.Tuple) and len(st.targets[0].elts) == 2
+            and isinstance(st.value, ast.Call) and dotted(st.value.func) == 'self.radidict.get']
+    extra = gets[0].targets[0].elts[1].id if gets and isinstance(gets[0].targets[0].elts[1], ast.Name) else '?'
+    ok = bool(calls) and [src(a).replace('"', "'") for a in calls[0].args] == [f"{extra}['param_keys']", f"{extra}['param_values']"]
     R.ob('C01.f', rs, calls[0] if calls else rs.node, ok, text="make_params_dict(extra['param_keys'], extra['param_values'])", detail='' if ok else
          'names and values do not come from the same lookup result in (names, values) order')
     # get returns PARAMS of the terminal node and the collected values
     rets = [n for n in walk_shallow(f.node) if isinstance(n, ast.Return) and isinstance(n.value, ast.Tuple) and 'param_keys' in src(n.value)]
-    ok = bool(rets) and 'param_keys=pnode[PARAMS]' in src(rets[0].value).replace(' ', '') and 'param_values=params' in src(rets[0].value).replace(' ', '')
+    ok = bool(rets) and f"param_keys={roles['pnode']}[PARAMS]" in src(rets[0].value).replace(' ', '') and f"param_values={roles['params']}" in src(rets[0].value).replace(' ', '') \
+        and src(rets[0].value.elts[0]).replace(' ', '') == f"{roles['pnode']}[DATA]"
     R.ob('C01.f', f, rets[0] if rets else f.node, ok, text='get returns (pnode[DATA], {param_keys: pnode[PARAMS], param_values: params, ...})', detail='' if ok else
          'the lookup result does not pair the terminal node\'s names with the collected values')
 
@@ -286,6 +334,18 @@ def check(P, R):
                     det = (f'the rule tail `{short(a[1])}` is mounted with the un-sliced list `{short(x)}`: a wildcard behind an existing '
                            f'prefix with k wildcards gets the filter of the wildcard k positions earlier')
         R.ob('C01.g', st, c, ok, detail=det, why='each wildcard is bound to the text its own filter accepted')
+
+
+def _is_token_name(f, e):
+    """expression denotes the wildcard marker: self.param_token or a local bound to it"""
+    if 'param_token' in src(e):
+        return True
+    if isinstance(e, ast.Name):
+        for n in f.cfg.nodes:
+            for d in f.rd.gen.get(n, []):
+                if d.name == e.id and d.value is not None and 'param_token' in src(d.value):
+                    return True
+    return False
 
 
 def check_idx_pairing(P, R, rid):
